@@ -785,3 +785,80 @@ pub fn seq_violations(obs: &Obs, pkts: &[wire::Pkt], msgs: &[wire::Msg], d: &wir
     }
     out
 }
+
+/// A client that asks for TLS (CLIENT_SSL in its first packet) from a server that offers none: the
+/// bare 32-byte SSLRequest or a whole handshake response with the bit set, under any packet id, with
+/// nothing, the start of a ClientHello or ordinary commands behind it, in one read or in pieces. The
+/// shim of the case has no TLS configuration (and in the build without the library's `tls` feature
+/// cannot have one). Returns the case and a label for the class counters.
+pub fn ssl_refusal_case(rng: &mut Rng, i: u64) -> (Case, String) {
+    let caps = match rng.below(3) {
+        0 => 0x003f_a685 | 0x2000_0000,
+        1 => rng.next() as u32 | wire::CLIENT_PROTOCOL_41,
+        _ => 0xFFFF_FFFF,
+    } | wire::CLIENT_SSL;
+    let bare = i % 3 != 2;
+    let hs = if bare {
+        wire::ssl_request(caps, rng.next() as u32, rng.below(256) as u8)
+    } else {
+        let tail_len = rng.below(40) as usize;
+        wire::handshake41(caps, 1 << 24, 0x21, b"secure", &rng.bytes(tail_len))
+    };
+    let behind = rng.below(4);
+    let mut cmds = Vec::new();
+    let mut scripts = Vec::new();
+    let mut raw_tail = Vec::new();
+    match behind {
+        0 => {}
+        1 => {
+            // the first flight of a TLS client: a handshake record, version 3.1, a ClientHello
+            let n = 40 + rng.below(300) as usize;
+            raw_tail = vec![0x16, 0x03, 0x01, (n >> 8) as u8, n as u8, 0x01, 0x00, ((n - 4) >> 8) as u8, (n - 4) as u8, 0x03, 0x03];
+            let keep = if rng.bool() { n - 6 } else { rng.below(n as u64 - 6) as usize };
+            raw_tail.extend(rng.bytes(keep));
+        }
+        2 => {
+            cmds.push(Cmd::ping());
+            cmds.push(Cmd::query(b"SELECT 1"));
+            scripts.push(Script::Q(QProg::completed(1, 0)));
+        }
+        _ => {
+            let n = 1 + rng.below(12) as usize;
+            raw_tail = rng.bytes(n);
+        }
+    }
+    let mut case = Case::new(cmds, scripts);
+    case.handshake = hs;
+    case.hs_seq = match i % 4 {
+        0 => 1,
+        1 => [0u8, 2, 7, 127, 128, 200, 254, 255][(i / 4 % 8) as usize],
+        _ => rng.below(256) as u8,
+    };
+    case.raw_tail = raw_tail;
+    let (input, _) = case.input();
+    let sk = match rng.below(5) {
+        0 => SchedKind::OneByte,
+        1 => SchedKind::HeaderCuts,
+        2 => SchedKind::Random,
+        3 => SchedKind::RandomCuts,
+        _ => SchedKind::All,
+    };
+    case.sched = make_sched(rng, sk, &input);
+    if behind == 0 && rng.bool() {
+        case.arrival = Arrival::Pipelined(1);
+    }
+    let label = format!("tls requested, none offered: {} under id {}, behind it {}", if bare { "SSLRequest" } else { "whole response with the SSL bit" }, if case.hs_seq == 1 { "1".to_string() } else if case.hs_seq == 255 { "255".to_string() } else { "other".to_string() }, ["nothing", "a ClientHello (whole or cut)", "pipelined commands", "a few stray bytes"][behind as usize]);
+    (case, label)
+}
+
+pub fn ssl_refusal_detail(case: &Case, o: &Obs, label: &str) -> J {
+    let (input, _) = case.input();
+    J::obj()
+        .set("scenario", label)
+        .set("first_packet_id", case.hs_seq)
+        .set("client_bytes", hex(&input[..input.len().min(80)]))
+        .set("client_bytes_total", input.len())
+        .set("arrival", format!("{:?}", case.arrival))
+        .set("server_bytes_flushed", o.world.visible.len()).set("server_bytes_written_but_never_flushed", o.world.pending.len())
+        .set("outcome", o.outcome.describe())
+}
